@@ -404,9 +404,9 @@ func (h *histRunner) run(hist [][]interface{}) {
 					}
 				}()
 				if viaProto {
-					ec = errClass(proto.Unmarshal(buf, st))
+					watched(func() { ec = errClass(proto.Unmarshal(buf, st)) })
 				} else {
-					ec = errClass(st.Unmarshal(buf))
+					watched(func() { ec = errClass(st.Unmarshal(buf)) })
 				}
 			})
 			modified := string(sent) != string(buf)
@@ -474,7 +474,7 @@ func (h *histRunner) attempt(pre *poolStream, p *poolStream, cut int, ver string
 				pan = fmt.Sprint(r)
 			}
 		}()
-		ec = errClass(st.Unmarshal(buf))
+		watched(func() { ec = errClass(st.Unmarshal(buf)) })
 	})
 	effVer := p.Ver
 	if len(buf) >= 16 {
@@ -952,9 +952,9 @@ func (hr *histReplay) handle(t *Tracer, name string, e map[string]interface{}) b
 				}
 			}()
 			if viaProto {
-				ec = errClass(proto.Unmarshal(buf, hr.st))
+				watched(func() { ec = errClass(proto.Unmarshal(buf, hr.st)) })
 			} else {
-				ec = errClass(hr.st.Unmarshal(buf))
+				watched(func() { ec = errClass(hr.st.Unmarshal(buf)) })
 			}
 		})
 		effVer := p.Ver
